@@ -287,7 +287,7 @@ def gen_value_harnesses(entries):
            "// associativity/commutativity harness (C16 O-flag-AC) per entry flagged `is_commutative: true`.",
            "#![allow(non_snake_case)]",
            "use crate::gen_value_table::*;", "use crate::u7::*;"]
-    names = {"total_scalar": [], "total_array": [], "ac": [], "const": []}
+    names = {"total_scalar": [], "total_array": [], "ac": [], "ac_slow": [], "const": []}
     for e in entries:
         nm = ident(e["repr"])
         unw = {"^": 34, "fact": 16}.get(e["repr"], 3)
@@ -299,13 +299,14 @@ def gen_value_harnesses(entries):
             names["total_array"].append("ta_%s_bin" % nm)
             if e["comm"] == "true":
                 out.append("vharness!(ac_%s, unwind = 7, |s| { ac_check(s, e_%s_bin::<i32, f64>, %s) });" % (nm, nm, AC_DOMAIN.get(e["repr"], "DOM_INTBOOL")))
-                names["ac"].append("ac_%s" % nm)
+                # `*`: multiplier associativity needs ~6 min of SAT time even on |x| <= 100 -> thorough tier
+                names["ac_slow" if e["repr"] == "*" else "ac"].append("ac_%s" % nm)
         if e["unary"]:
             out.append("vharness!(t_%s_un, unwind = %d, |s| { total1(s, e_%s_un::<i32, f64>, false, %s) });" % (nm, max(unw, 7), nm, prop))
             out.append("vharness!(ta_%s_un, unwind = %d, |s| { total1(s, e_%s_un::<i32, f64>, true, %s) });" % (nm, max(unw, 11), nm, prop))
             names["total_scalar"].append("t_%s_un" % nm)
             names["total_array"].append("ta_%s_un" % nm)
-    allh = names["total_scalar"] + names["total_array"] + names["ac"]
+    allh = names["total_scalar"] + names["total_array"] + names["ac"] + names["ac_slow"]
     out.append("registry!(\"vgen\", %s);" % ", ".join(allh))
     return "\n".join(out) + "\n", names
 
